@@ -138,7 +138,7 @@ Proof.
   rewrite Hlen.
   destruct (N.ltb_spec (N.of_nat k) (N.of_nat (width k))) as [H|H].
   - rewrite removelast_firstn_len, Hlen. do 2 f_equal. f_equal. lia.
-  - replace k with (width k) at 2 by lia. rewrite <- Hlen at 2. now rewrite firstn_all.
+  - rewrite (firstn_all2 (n:=k) (bm_list g (firstn (width k) src))) by lia. reflexivity.
 Qed.
 
 Theorem draw_len g src k l rest : draw ops g src (N.of_nat k) = (Some l, rest) -> length l = k.
@@ -243,8 +243,8 @@ Proof.
         destruct (Nat.leb_spec (S k * w) (length src)) as [Hle3|Hgt3]; try lia; [|reflexivity].
       rewrite skipn_skipn. replace (w + k * w) with (S k * w) by lia. f_equal. f_equal.
       rewrite <- app_assoc. f_equal. cbn [app].
-      rewrite <- seq_shift, map_map. cbn [seq map]. f_equal.
-      * unfold std_row. fold w. now rewrite Nat.mul_0_l, skipn_O.
+      cbn [seq map]. rewrite <- seq_shift, map_map. f_equal.
+      * unfold std_row. fold w. reflexivity.
       * apply map_ext. intros r. unfold std_row. fold w. rewrite skipn_skipn.
         now replace (w + r * w) with (S r * w) by lia.
     + destruct (Nat.leb_spec (S k * w) (length src)) as [Hle3|Hgt3]; [lia|reflexivity].
